@@ -74,6 +74,20 @@ func errnoName(err error) string {
 	return "error(" + err.Error() + ")"
 }
 
+// posixNlink is st_nlink of a POSIX tree without hard links: 1 for a file, 2 + the number of sub-directories for a directory.
+func (n *mNode) posixNlink() uint32 {
+	if !n.dir {
+		return 1
+	}
+	k := uint32(2)
+	for _, c := range n.children {
+		if c.dir {
+			k++
+		}
+	}
+	return k
+}
+
 func runC18(rc *RunCtx) *simkit.Violation {
 	const prop = "C18"
 	w := rc.W
@@ -262,6 +276,10 @@ func runC18(rc *RunCtx) *simkit.Violation {
 						return nil, nil
 					}
 					c.lookups++
+					if want := c.posixNlink(); op.Entry.Attributes.Nlink != want {
+						out = Viol(prop, "attr-nlink", "LookUpInode", c.path(), "%q: the mount says st_nlink %d, a POSIX tree says %d (directory=%v) (history: %s)", c.path(), op.Entry.Attributes.Nlink, want, c.dir, tr())
+						return nil, nil
+					}
 					if c.dir != (op.Entry.Attributes.Mode&os.ModeDir != 0) || (!c.dir && op.Entry.Attributes.Size != uint64(len(c.data))) {
 						out = Viol(prop, "attr-wrong", "LookUpInode", c.path(), "%q: directory=%v size %d in the model, mode %v size %d on the mount (history: %s)", c.path(), c.dir, len(c.data), op.Entry.Attributes.Mode, op.Entry.Attributes.Size, tr())
 						return nil, nil
@@ -375,6 +393,10 @@ func runC18(rc *RunCtx) *simkit.Violation {
 				ga := &fuseops.GetInodeAttributesOp{Inode: p.ino}
 				if err := fs.GetInodeAttributes(bg, ga); err != nil || ga.Attributes.Mode&os.ModeDir == 0 {
 					out = Viol(prop, "errno", "GetInodeAttributes", p.path(), "getattr of a live directory: %s mode %v (history: %s)", errnoName(err), ga.Attributes.Mode, tr())
+					return nil, nil
+				}
+				if want := p.posixNlink(); ga.Attributes.Nlink != want {
+					out = Viol(prop, "attr-nlink", "GetInodeAttributes", p.path(), "directory %q: the mount says st_nlink %d, a POSIX tree says %d (2 + its %d sub-directories) (history: %s)", p.path(), ga.Attributes.Nlink, want, want-2, tr())
 					return nil, nil
 				}
 				op := &fuseops.ReadDirOp{Inode: p.ino, Offset: 0, Dst: make([]byte, 64*1024)}
